@@ -2,7 +2,7 @@ CONSTANTS
   T = 2
   B = 3
   S = 8
-  Keys = {1, 7, 13, 19, 25, 31, 37, 43, 49, 101, 107, 2, 8, 3, 6}
+  Keys = {1, 7, 13, 19, 25, 31, 37, 43, 49, 101, 107, 2, 8, 3, 0}
   Vals = {1, 2, 3}
   Threads = {1, 2, 3}
   MaxOps = 60
